@@ -3,6 +3,7 @@ package props
 import (
 	"fmt"
 	"go/ast"
+	"go/token"
 	"go/types"
 	"sort"
 	"strings"
@@ -284,4 +285,125 @@ func reflectPreconditionRule(p *core.Program, r *core.Report, region map[string]
 	}
 	r.Analysed["K3_functions_with_type_origins"] = nFuncs
 	r.Analysed["K3_type_origins"] = nOrigins
+}
+
+// K6 — stale lengths. `n := len(x)` taken before x is reassigned, and then used to index or
+// slice x: the index is computed for another value than the one indexed (out of range when the
+// reassignment shortens x). In the unguarded region an index panic reaches the caller.
+func staleLengthRule(p *core.Program, r *core.Report, region map[string]bool) {
+	n := 0
+	for _, rel := range []string{"", "parser", "parser/lexer", "checker", "conf", "compiler", "optimizer", "file"} {
+		pk := p.Pkg(rel)
+		if pk == nil {
+			continue
+		}
+		info := pk.TypesInfo
+		for _, fd := range p.FuncDecls(rel) {
+			if fd.Body == nil {
+				continue
+			}
+			fname := core.FuncName(rel, fd)
+			if !region[fname] && rel != "parser/lexer" && rel != "parser" && rel != "file" {
+				continue
+			}
+			// n := len(x) definitions (x an identifier)
+			type lenDef struct {
+				nObj, xObj types.Object
+				pos        token.Pos
+			}
+			var defs []lenDef
+			ast.Inspect(fd.Body, func(nd ast.Node) bool {
+				as, ok := nd.(*ast.AssignStmt)
+				if !ok || len(as.Lhs) != 1 || len(as.Rhs) != 1 {
+					return true
+				}
+				c, ok := eng.Unparen(as.Rhs[0]).(*ast.CallExpr)
+				if !ok || !isBuiltinCall(info, c, "len") || len(c.Args) != 1 {
+					return true
+				}
+				xid, ok1 := eng.Unparen(c.Args[0]).(*ast.Ident)
+				nid, ok2 := as.Lhs[0].(*ast.Ident)
+				if ok1 && ok2 {
+					defs = append(defs, lenDef{objOf(info, nid), objOf(info, xid), as.Pos()})
+				}
+				return true
+			})
+			if len(defs) == 0 {
+				continue
+			}
+			n++
+			var bad []string
+			for _, d := range defs {
+				// reassignments of x after the definition (not through a slicing by n itself)
+				var reassigned []token.Pos
+				ast.Inspect(fd.Body, func(nd ast.Node) bool {
+					as, ok := nd.(*ast.AssignStmt)
+					if !ok || as.Pos() <= d.pos {
+						return true
+					}
+					for i, l := range as.Lhs {
+						id, ok := l.(*ast.Ident)
+						if !ok || objOf(info, id) != d.xObj {
+							continue
+						}
+						// x = x[a:b] with bounds that use n keeps n meaningful only until then; still a reassignment
+						_ = i
+						reassigned = append(reassigned, as.Pos())
+					}
+					return true
+				})
+				if len(reassigned) == 0 {
+					continue
+				}
+				first := reassigned[0]
+				// uses of n inside an index/slice expression on x after the first reassignment
+				ast.Inspect(fd.Body, func(nd ast.Node) bool {
+					var base ast.Expr
+					var idx []ast.Expr
+					switch x := nd.(type) {
+					case *ast.IndexExpr:
+						base, idx = x.X, []ast.Expr{x.Index}
+					case *ast.SliceExpr:
+						base, idx = x.X, []ast.Expr{x.Low, x.High, x.Max}
+					default:
+						return true
+					}
+					bid, ok := eng.Unparen(base).(*ast.Ident)
+					if !ok || objOf(info, bid) != d.xObj || nd.Pos() <= first {
+						return true
+					}
+					// the reassignment statement itself (x = x[1:n-1]) uses the still-valid n
+					for _, rp := range reassigned {
+						if rp == first && nd.Pos() > rp {
+							// inside the first reassignment? check containment
+						}
+					}
+					for _, e := range idx {
+						if e == nil {
+							continue
+						}
+						ast.Inspect(e, func(m ast.Node) bool {
+							if id, ok := m.(*ast.Ident); ok && objOf(info, id) == d.nObj {
+								// exclude uses inside the first reassigning statement's own right-hand side
+								inFirst := false
+								ast.Inspect(fd.Body, func(q ast.Node) bool {
+									if as, ok := q.(*ast.AssignStmt); ok && as.Pos() == first && id.Pos() >= as.Pos() && id.End() <= as.End() {
+										inFirst = true
+									}
+									return true
+								})
+								if !inFirst {
+									bad = append(bad, fmt.Sprintf("`%s` at %s uses %s = len(%s) taken at %s, but %s was reassigned at %s", eng.ExprStr(nd), p.Pos(nd.Pos()), id.Name, bid.Name, p.Pos(d.pos), bid.Name, p.Pos(first)))
+								}
+							}
+							return true
+						})
+					}
+					return true
+				})
+			}
+			r.Check(len(bad) == 0, "R4.3", fname+"/no index by a stale length", p.Pos(fd.Pos()), "every len(x) used to index x was taken from the value indexed", strings.Join(bad, "; ")+" — when the reassignment shortens the value the index is out of range; outside every recover that panic reaches the caller of Parse/Compile")
+		}
+	}
+	r.Analysed["K6_functions_with_saved_lengths"] = n
 }
